@@ -228,7 +228,10 @@ def explore(ctx):
            (['* | count', '--file', '/proc/self/mem'], 'a file whose reads fail'),
            (['--file', noperm, '* | count'], 'permission denied' if os.geteuid() != 0 else 'unreadable (root can read it)'),
            ([], 'no query'), (['--bogus', '* | count'], 'unknown flag'), (['* | count', 'extra'], 'extra positional'),
-           (['* | count', '-o'], 'flag without value'), (['* | count', '--file'], 'flag without value')]
+           (['* | count', '-o'], 'flag without value'), (['* | count', '--file'], 'flag without value'),
+           (['* | count', '-o', 'bogus'], 'unknown output mode'), (['* | count', '-o', ''], 'empty output mode'), (['* | count', '-o', 'format='], 'empty format string'),
+           (['-m', '', '* | logfmt'], 'empty --format'), (['--format=', '* | logfmt'], 'empty --format'), (['* | logfmt', '--format', ''], 'empty --format'),
+           (['* | logfmt', '-m', '{a', ], 'malformed format string'), (['* | logfmt', '-o', 'json', '-m', '{a}'], '-o together with --format')]
     for args, what in cli:
         p = subprocess.run([aglib.AGRIND] + args, input=b'a\n', stdout=subprocess.PIPE, stderr=subprocess.PIPE, env=aglib.ENV, timeout=20)
         evaluations += 1
@@ -237,6 +240,8 @@ def explore(ctx):
             failures.append({'kind': 'spec', 'what': '%s: crash instead of an error message (rc=%s): %s' % (what, p.returncode, err[-300:]), 'payload': {'args': args}})
         elif err.strip() == '' and what not in ('unreadable (root can read it)',):
             failures.append({'kind': 'spec', 'what': '%s: no error message (rc=%s)' % (what, p.returncode), 'payload': {'args': args}})
+        elif p.returncode == 0 and what not in ('unreadable (root can read it)', 'a file whose reads fail', 'a directory'):
+            failures.append({'kind': 'spec', 'what': '%s: exit status 0' % what, 'payload': {'args': args, 'stderr': err[-200:]}})
     os.chmod(noperm, 0o600)
     os.remove(noperm)
     os.rmdir(tmpd)
